@@ -7,6 +7,7 @@ var plans = map[string][]planItem{
 	"C03": {{Scenario: "c03", Quick: 4000, Thorough: 400000}},
 	"C06": {{Scenario: "c06", Quick: 3000, Thorough: 200000}},
 	"C07": {{Scenario: "c07", Quick: 1500, Thorough: 60000}},
+	"C08": {{Scenario: "c08", Quick: 4000, Thorough: 300000}},
 	"C11": {{Scenario: "c11", Quick: 1440, Thorough: 144000}},
 	"C04": {{Scenario: "c04", Quick: 3000, Thorough: 300000}},
 	"C16": {{Scenario: "c16", Quick: 4000, Thorough: 400000}},
@@ -43,9 +44,30 @@ func comp(extraReal, extraStub []string) map[string]any {
 
 var propMeta = map[string]meta{
 	"C09": {Level: "exploration", Rule: "tbd", Components: comp(nil, nil), Assumptions: commonAssumptions},
-	"C06": {Level: "exploration", Rule: "tbd", Components: comp(nil, nil), Assumptions: commonAssumptions},
-	"C07": {Level: "exploration", Rule: "tbd", Components: comp(nil, nil), Assumptions: commonAssumptions},
-	"C11": {Level: "fault_enumeration", Rule: "tbd", Components: comp(nil, nil), Assumptions: commonAssumptions},
+	"C06": {
+		Level:       "exploration",
+		Rule:        "one run = one open tunnel (websocket or legacy) relaying a client stream (1-12 DATA packets, thorough tier up to 60; payload sizes biased to 0, 1, 4085-4087, 4095-4097, 8182-8193, 16383/16384, 32768, 65534/65535 and uniform; 1 in 6 packets declares fewer or more bytes than it carries) and a host stream (1-12 writes up to 20000 bytes) under a tape-chosen interleaving of both directions, 0-3 stalls (gateway write held = slow client/slow host, delivery to the gateway held, peer reading slowly) and optional TCP re-segmentation of the client's writes; oracle at the end of a fault-free drain: host bytes == concatenation of declared payloads (min(declared,carried)); client DATA payloads == host stream; every DATA packet structurally well-formed; a packet declaring more than it carries may be forwarded as carried, dropped, or end the tunnel; non-trivial = bytes flowed both ways and >=1 stall fired; distinct = journal shape",
+		Components:  comp(nil, nil),
+		Assumptions: append([]string{"streams up to ~0.8 MiB per direction in the thorough tier (60 packets x 65535), not several MiB"}, commonAssumptions...),
+	},
+	"C07": {
+		Level:       "exploration",
+		Rule:        "one run = 2-8 (thorough: 2-64) simultaneous tunnels with distinct connection ids, mixed transports, distinct users/tokens/hosts, self-identifying byte streams, 1 in 5 with a C01-style misbehaving history, optional close/drop, 0-2 stalls, setup/traffic/teardown interleaved by the tape; oracle: per tunnel the C01 reference machine, dial attribution by per-tunnel host names (at most one, the requested one), host bytes prefix of that tunnel's declared payloads, client DATA prefix of that tunnel's host stream (any foreign byte is a mismatch); non-trivial = >=2 tunnels moved bytes; distinct = journal shape",
+		Components:  comp(nil, nil),
+		Assumptions: append([]string{"connection identifiers are distinct, as the property states"}, commonAssumptions...),
+	},
+	"C08": {
+		Level:       "fault_enumeration",
+		Rule:        "one run = one packet history (valid setup + 1-6 DATA up to 3000 or 20000 bytes, 1 in 4 C01-mutated, optional close) whose byte stream is re-segmented: one packet per message (control), one chosen packet cut at one or two tape-swept positions, 2-4 packets coalesced into one message, cuts independent of packet boundaries, or everything in one message; websocket messages optionally split into 2-4 frames; optional TCP re-segmentation underneath (stream-mode delivery); 1 in 6 runs make the stream unframeable (length field 0-7, or a packet cut short followed by client EOF); oracle: the reference machine consumes packets, so responses, dials and relayed bytes must equal those of the unsegmented stream, streams complete after drain, an unframeable stream ends the tunnel and nothing after it is processed; non-trivial = >=4 packets sent and some message carries >=2 packets, some packet spans >=2 messages, or TCP re-segmentation on; distinct = journal shape",
+		Components:  comp(nil, nil),
+		Assumptions: append([]string{"cut positions of one packet are enumerated across seeds, the rest of the schedule is sampled", "legacy: the preamble the IN handler discards is delivered as its own segment before re-segmentation starts"}, commonAssumptions...),
+	},
+	"C11": {
+		Level:       "fault_enumeration",
+		Rule:        "end cause (CLOSE_CHANNEL, out-of-order packet, unframeable bytes, client EOF, client RST, legacy IN EOF/RST, legacy OUT EOF/RST) x end point (before handshake, after each of the four steps, data in flight to host, to client, both) x transport are enumerated by seed (144 cells, each cell visited >=10 times per quick run); within a cell the schedule, data sizes and an optional write stall at the moment of the end are sampled; oracle after a drain (faults off, host idle and not closing first, <=60 s simulated): every backend connection saw EOF/RST from the gateway, every client-facing connection was closed by the gateway, the number of goroutines with a frame in the protocol package is back to its value before the tunnel, the connection registry is empty, rdpgw_websocket_connections and rdpgw_legacy_connections (read through /metrics of the real binary) are back to their values; non-trivial = every run; distinct = journal shape",
+		Components:  comp(nil, nil),
+		Assumptions: append([]string{"rdpgw_connection_cache is a request-time sample of a TTL cache and is not asserted"}, commonAssumptions...),
+	},
 	"C03": {
 		Level:       "exploration",
 		Rule:        "one run = one tunnel under a drawn host policy (mode in roundrobin/unsigned/any/signed, host list with/without the user placeholder and an IPv6 entry, user name incl. empty and user@domain, token host = configured entry or the requested string) requesting a configured entry or one of 16 near-miss kinds (port, prefix, suffix, superstring, embedded/doubled NUL, no terminator, other user's entry, bracketed, surrogate pair, odd-length UTF-16, over-long length field, name containing a port); oracle: independent UTF-16 decode + policy model; every dial of the run must be the authorised request verbatim, a refusal must carry E_PROXY_RAP_ACCESSDENIED and cause zero dials; listeners exist for allowed and forbidden names; non-trivial = the channel request was sent; distinct = journal shape",
